@@ -127,7 +127,8 @@ def generate(rng, tier, i):
             break
     length = int(rng.integers(2, 13))
     return {"mdg": recipe, "seed": int(rng.integers(1, 2**31)),
-            "ops": _history(rng, length, bool(rng.random() < 0.6))}
+            "ops": _history(rng, length, bool(rng.random() < 0.6)),
+            "sparse_observation": bool(rng.random() < 0.35)}
 
 
 def floor(tier):
@@ -157,6 +158,14 @@ def floor(tier):
     out.append({"mdg": F2[0], "seed": 13, "ops": [
         C("a", "sd", {"cells": 1}), C("b", "sd", {"faces": 1, "nodes": 1}), R("name", 1),
         C("c", "sd", {"cells": 2}), C("a", "sd", {"nodes": 3})]})
+    # same total size restored by a removal followed by a creation, observed only before
+    # and after both (variables a, b, then a removed and c of the size of a created)
+    for k, (sd, first) in enumerate([(21, "a"), (22, "b"), (23, "a"), (24, "a")]):
+        out.append({"mdg": (F2[0], F2[1], X, F2[1])[k], "seed": sd,
+                    "observe": [True, True, False, True, True], "ops": [
+            C("a", "sd", {"cells": 1}), C("b", "sd", {"cells": 1}),
+            dict(R("name", 1), name=first),
+            C("c", "sd", {"cells": 1}), C("d", "sd", {"faces": 1})]})
     # remove everything, then start again
     out.append({"mdg": F2[1], "seed": 14, "ops": [
         C("a", "sd", {"cells": 1}), C("b", "intf", {"cells": 1}), R("name", 1), R("name", 2),
@@ -270,6 +279,8 @@ class _Run:
         if how == "name":
             names = sorted({e.name for e in live})
             nm = names[int(rng.integers(0, len(names)))]
+            if op.get("name") in names:
+                nm = op["name"]
             self.es.remove_variables([nm])
             gone = self.ref.remove_where(lambda e: e.name == nm)
         elif how == "md_fresh":
@@ -533,6 +544,17 @@ def check(case, mon):
                 run.do_create_dup(op)
             elif op["op"] == "remove_stale":
                 run.do_remove_stale(op)
+            # the monitor itself calls the code under test (and so refreshes anything that
+            # code may remember): in a third of the histories some quiescent points are
+            # left unobserved, so that e.g. a removal followed by a creation is seen only
+            # from before and after both
+            skip = case.get("sparse_observation") and k + 1 < len(case["ops"]) and \
+                np.random.default_rng([case["seed"], 7, k]).random() < 0.5
+            if case.get("observe") is not None:
+                skip = not case["observe"][k]
+            if skip:
+                mon.count("quiescent_points_left_unobserved")
+                continue
             run.invariants(np.random.default_rng([case["seed"], k + 1]))
     except _Abort:
         pass
